@@ -457,7 +457,7 @@ class BaseSpace(BaseParent, ItemFactory):
     def __delitem__(self, key):
         """Delete a child :class:`ItemSpace` object"""
 
-        key = tuplize_key(self, key)
+        key = get_node(self, tuplize_key(self, key), {})[KEY]
         if key in list(self._impl.param_spaces):
             self._impl.clear_itemspace_at(key)
         else:
